@@ -465,4 +465,45 @@ def _file_edges():
     return FileEdges()
 
 
-FAMILIES = [SeveralPerFile(), OneFileTwoNames(), GrowingSource(), Graphs(), Suppliers(), Shapes(), TwoDirectories(), _file_edges()]
+class OldBaseModulesInTheClosure(object):
+    name = 'smiv1-base-modules-in-the-closure'
+    describe = ('an SMIv1 module naming RFC-1212 / RFC-1215 / RFC1155-SMI / RFC1213-MIB in its IMPORTS, taking from them only symbols '
+                'that the generators redirect to SMIv2 modules, only symbols that stay, or both; the sources hold all of them and '
+                'nothing is stubbed but the three SMIv2 base modules: every module NAMED in the IMPORTS clause is looked up and has '
+                'a status in the result')
+
+    CLAUSES = [('RFC-1212', ['OBJECT-TYPE']), ('RFC-1215', ['TRAP-TYPE']), ('RFC1155-SMI', ['enterprises']),
+               ('RFC1155-SMI', ['enterprises', 'Counter']), ('RFC1213-MIB', ['ifIndex']), ('RFC1213-MIB', ['ifIndex', 'egp']),
+               ('RFC1213-MIB', ['egp'])]
+
+    def blocks(self, tier):
+        return [{'backend': b} for b in ('json', 'pysnmp')]
+
+    def cases(self, block, tier):
+        for r in (1, 2):
+            for combo in itertools.combinations(range(len(self.CLAUSES)), r):
+                if len(set(self.CLAUSES[i][0] for i in combo)) == len(combo):
+                    yield {'backend': block['backend'], 'clauses': list(combo)}
+
+    def run_case(self, case):
+        from mc import env, v1stubs
+        from mc.checks import C16
+        clauses = [self.CLAUSES[i] for i in case['clauses']]
+        imports = ' '.join('%s FROM %s' % (', '.join(syms), mod) for mod, syms in clauses)
+        text = 'OLD-MIB DEFINITIONS ::= BEGIN\nIMPORTS %s;\noldNode OBJECT IDENTIFIER ::= { 1 3 6 1 4 1 77 }\nEND\n' % imports
+        texts = dict(C16.stubs())
+        texts['OLD-MIB'] = text
+        parser = env.shared_parser('smiV1Relaxed')
+        parser.reset()
+        res, written = env.compile_set(texts, ['OLD-MIB'], codegen=case['backend'], dialect=parser, ignoreErrors=True)
+        vs = []
+        sig = 'C08|old-base-modules|%s' % case['backend']
+        if res.get('OLD-MIB') != 'compiled':
+            vs.append(('%s|not-compiled' % sig, '%r\n%s' % (getattr(res.get('OLD-MIB'), 'error', None), text)))
+        for mod, syms in clauses:
+            if mod not in res:
+                vs.append(('%s|named-module-without-a-status|%s' % (sig, mod), 'IMPORTS %s; result keys %r' % (imports, sorted(res))))
+        return repr(sorted((k, str(v)) for k, v in res.items())), vs, 1
+
+
+FAMILIES = [SeveralPerFile(), OneFileTwoNames(), GrowingSource(), Graphs(), Suppliers(), Shapes(), TwoDirectories(), _file_edges(), OldBaseModulesInTheClosure()]
